@@ -41,18 +41,23 @@ def sepmixFracItc : Format := ⟨0xa0a0a000000005f000004820000000c⟩
 def prefixDSepmixIntItc : Format := ⟨0xa0a0a006400005f000002410000000c⟩
 def sepItcHexfloat : Format := ⟨0xa0210000000005f00000fc70000000c⟩
 
-/-! ### fraction slice (feature set `format`) -/
+/-! ### fraction slice (feature set `format`)
+
+The I+T+C witnesses are stated `Fix.itc = true ∨ …`: they hold for the code as it is (`Fix.itc = false`, the default of
+`Model/Iter.lean`) and are void under the proposed repair `fixes/C13-sep-itc-accepts-leading.diff`. -/
 
 /-- `pf f64 a0a0a000000005f00000fc70000000c 0 0 101 46 4e614e 696e66 696e66696e697479 312e5f31323334353637383930313233343536373839` -/
-theorem witness_sep_itc_fraction : parseFloatModel fFormat sepItc {} false f64 inFrac true = "panic" := by
+theorem witness_sep_itc_fraction :
+    Fix.itc = true ∨ parseFloatModel fFormat sepItc {} false f64 inFrac true = "panic" := by
   decide +kernel
 
 theorem witness_sep_itc_fraction_tag :
-    panicTag (parseFloatSyntax ⟨fFormat, sepItc, true⟩ {} false inFrac) = some "step_by: on digit separator" := by
+    Fix.itc = true ∨ panicTag (parseFloatSyntax ⟨fFormat, sepItc, true⟩ {} false inFrac) = some "step_by: on digit separator" := by
   decide +kernel
 
 /-- same with `parse_partial` (`… 1 0 101 46 …`) -/
-theorem witness_sep_itc_fraction_partial : parseFloatModel fFormat sepItc {} true f64 inFrac true = "panic" := by
+theorem witness_sep_itc_fraction_partial :
+    Fix.itc = true ∨ parseFloatModel fFormat sepItc {} true f64 inFrac true = "panic" := by
   decide +kernel
 
 /-- the release build of the same input does not fault (it silently mis-scans the slice instead) -/
@@ -60,15 +65,18 @@ theorem witness_sep_itc_fraction_release : parseFloatModel fFormat sepItc {} fal
   decide +kernel
 
 /-- `pf f64 a000000005f00000fc70000041f 0 0 101 46 4e614e 696e66 696e66696e697479 312e5f31…39` (RUST_LITERAL) -/
-theorem witness_rust_literal : parseFloatModel fFormat rustLiteral {} false f64 inFrac true = "panic" := by
+theorem witness_rust_literal :
+    Fix.itc = true ∨ parseFloatModel fFormat rustLiteral {} false f64 inFrac true = "panic" := by
   decide +kernel
 
 /-- `pf f64 a000000005f00000fc70000040f 0 0 101 46 …` (SWIFT_LITERAL) -/
-theorem witness_swift_literal : parseFloatModel fFormat swiftLiteral {} false f64 inFrac true = "panic" := by
+theorem witness_swift_literal :
+    Fix.itc = true ∨ parseFloatModel fFormat swiftLiteral {} false f64 inFrac true = "panic" := by
   decide +kernel
 
 /-- fraction flags I+T+C only, integer and exponent without separators -/
-theorem witness_sepmix_frac_itc : parseFloatModel fFormat sepmixFracItc {} false f64 inFrac true = "panic" := by
+theorem witness_sepmix_frac_itc :
+    Fix.itc = true ∨ parseFloatModel fFormat sepmixFracItc {} false f64 inFrac true = "panic" := by
   decide +kernel
 
 /-- OCAML_LITERAL (integer I+T+C, fraction I+L+T+C, no base prefix) is *not* in the class: its fraction iterator
@@ -80,29 +88,30 @@ theorem ocaml_literal_no_panic : parseFloatModel fFormat ocamlLiteral {} false f
 /-! ### integer slice (needs a base prefix: feature set `radix+format`) -/
 
 /-- `pf f64 a0a0a006400005f00000fc70000000c 0 0 101 46 4e614e 696e66 696e66696e697479 30645f3132333435363738393031323334353637383930` -/
-theorem witness_prefix_itc_integer : parseFloatModel fRadixFormat prefixDSepItc {} false f64 inInt true = "panic" := by
+theorem witness_prefix_itc_integer :
+    Fix.itc = true ∨ parseFloatModel fRadixFormat prefixDSepItc {} false f64 inInt true = "panic" := by
   decide +kernel
 
 theorem witness_prefix_itc_integer_tag :
-    panicTag (parseFloatSyntax ⟨fRadixFormat, prefixDSepItc, true⟩ {} false inInt) = some "step_by: on digit separator" := by
+    Fix.itc = true ∨ panicTag (parseFloatSyntax ⟨fRadixFormat, prefixDSepItc, true⟩ {} false inInt) = some "step_by: on digit separator" := by
   decide +kernel
 
 /-- integer flags I+T+C only -/
 theorem witness_prefix_int_itc_only :
-    parseFloatModel fRadixFormat prefixDSepmixIntItc {} false f64 inInt true = "panic" := by
+    Fix.itc = true ∨ parseFloatModel fRadixFormat prefixDSepmixIntItc {} false f64 inInt true = "panic" := by
   decide +kernel
 
 /-! ### other radix: hex float, 17 > `u64_step(16) = 16` digits, exponent character `p` -/
 
 /-- `pf f64 a0210000000005f00000fc70000000c 0 0 112 46 4e614e 696e66 696e66696e697479 312e5f3031323334353637383961626364656630` -/
 theorem witness_sep_itc_hexfloat :
-    parseFloatModel fRadixFormat sepItcHexfloat { exp := 112 } false f64 inHex true = "panic" := by
+    Fix.itc = true ∨ parseFloatModel fRadixFormat sepItcHexfloat { exp := 112 } false f64 inHex true = "panic" := by
   decide +kernel
 
 /-! ### `parse_number` level -/
 
 theorem witness_parseNumber :
-    panicTag (parseNumber ⟨fFormat, sepItc, true⟩ false {} (Bytes.new inFrac) false) = some "step_by: on digit separator" := by
+    Fix.itc = true ∨ panicTag (parseNumber ⟨fFormat, sepItc, true⟩ false {} (Bytes.new inFrac) false) = some "step_by: on digit separator" := by
   decide +kernel
 
 /-! ### second class: separator = exponent character / base suffix / base prefix *up to ASCII case*
@@ -143,9 +152,9 @@ theorem not_parse_total_debug :
       | .error (.fault _) => False
       | _ => True) := by
   intro h
-  have hw := witness_sep_itc_fraction_tag
-  have := h ⟨fFormat, sepItc, true⟩ {} false inFrac (by decide +kernel) (by decide +kernel) (by decide +kernel)
-  cases hr : parseFloatSyntax ⟨fFormat, sepItc, true⟩ {} false inFrac with
+  have hw := witness_sep_eq_exponent_uncased_tag
+  have := h ⟨fFormat, sepEI, true⟩ {} false [49, 69, 43, 53] (by decide +kernel) (by decide +kernel) (by decide +kernel)
+  cases hr : parseFloatSyntax ⟨fFormat, sepEI, true⟩ {} false [49, 69, 43, 53] with
   | ok p => rw [hr] at hw; simp [panicTag] at hw
   | error e =>
     rw [hr] at this hw
